@@ -17,6 +17,7 @@ import OpenHTF.Driver.C12
 import OpenHTF.Driver.C04
 import OpenHTF.Driver.C14
 import OpenHTF.Driver.C19
+import OpenHTF.Driver.C11
 open OpenHTF.Driver
 
 def stripNl (s : String) : String :=
@@ -43,6 +44,7 @@ def dispatch (line : String) : String :=
   | "C04" :: ts => C04.handle ts
   | "C14" :: ts => C14.handle ts
   | "C19" :: ts => C19.handle ts
+  | "C11" :: ts => C11.handle ts
   | "C03" :: ts => C02.handleC03 ts
   | _ => reply false false "unknown-property"
 
